@@ -39,6 +39,12 @@ def main():
     ids = sorted(os.path.basename(d) for d in glob.glob(os.path.join(HERE, 'seeded', 'C*-*'))
                  if os.path.exists(os.path.join(d, 'patch.diff')))
     ids = [i for i in ids if i.startswith(a.only)]
+    defused = [i for i in ids if 'defused_by_fix' in json.load(
+        open(os.path.join(HERE, 'seeded', i, 'meta.json')))]
+    for i in defused:
+        print(f'{i:8s} skipped: no longer breaks the property since a repair of the '
+              f'repository (see its meta.json)')
+    ids = [i for i in ids if i not in defused]
     missed = []
     with ThreadPoolExecutor(a.jobs) as ex:
         futs = [ex.submit(one, i, ALL if a.all_props else [i.split('-')[0]]) for i in ids]
